@@ -15,10 +15,21 @@ as int32 / uint8 arrays and numpy scalars, element vectors and aggregated values
 int32 / uint8 / uint16 (also with indices at the top of the dtype's range), counts as numpy scalars where the signature
 accepts them.  Reducers by name and as the matching NumPy callable; exact cancellation also for general floats; values
 scaled by 1e-6 / 1e+6 (relative bounds only).
+
+Round 4.  *Presentations* (C20/presentations): every generator answers the canonical call and the same request presented
+differently (shape as uint64 / uint16 / read-only / strided / row array, tuples of np.uint64 / np.int16, bare numpy scalars and
+0-d arrays; counts, densities, ndims and sizes as numpy scalars of several widths incl. np.float32; element vectors, subscripts
+and values in narrow / unsigned / single-precision / boolean dtypes, read-only and strided; the reducer by name, as NumPy
+callable and as Python builtin; optional arguments positionally in their documented order and everything by keyword; root logger
+at DEBUG / INFO) under the same seed - the two answers must be identical and process-wide settings untouched.  *Orders 5..8*
+(C20/high-order, teneye(6, 4) and teneye(8, 2) with the closed-form entries).  *Rejected requests* (C20/rejected): valid request,
+ill-formed request(s), the same valid request again - the ill-formed one must raise, leave its arguments bit for bit as they
+were and the process settings unchanged, and the valid request is answered exactly as before.
 """
 
 from __future__ import annotations
 
+import contextlib
 import itertools
 import logging
 import math
@@ -53,7 +64,17 @@ RULE = (
     "shape, distinct, exact count, values, reproducible under the seed, dictionary aggregation); aggregated values and "
     "diagonal elements scaled by 1e-9 / 1e-12 / 1e-300 with the clause 'only exact zeros are dropped'; an empty element "
     "vector for the diagonals; the second result of every dense / random sparse generator stays alive and is judged again "
-    "after a third result was made and edited; the arguments of tendiag / sptendiag are judged after the result was edited."
+    "after a third result was made and edited; the arguments of tendiag / sptendiag are judged after the result was edited.  "
+    "Round 4: C20/presentations - canonical call vs the same request in a drawn presentation (shape forms incl. uint64 / uint16 / "
+    "read-only / strided / row arrays, numpy scalars of several widths for counts, densities [np.float32], ndims, sizes; narrow, "
+    "unsigned, single-precision, boolean, read-only, strided element / subscript / value arrays; reducer as name / NumPy callable / "
+    "builtin; arguments positionally or all by keyword; root logger at DEBUG / INFO), same seed, identical answers required; "
+    "C20/high-order - every generator at order 5..8 (<= 600 entries; tendiag / sptendiag without a shape for 5..7 elements), "
+    "teneye(6,4) and teneye(8,2) against the closed form prod (c_v-1)!!/(m-1)!!; C20/rejected - histories valid / ill-formed / valid "
+    "with the ill-formed part generated next to extents of 1 and equal lengths (one value for many subscripts, a 1x1 subscript "
+    "with many values, flat / row / two-column / 3-d values, subscripts wider or narrower than the shape, out-of-range subscript "
+    "with a zero value, count == size, count in the density position, a function returning one entry more or fewer, ...): "
+    "exception required, arguments and process settings unchanged, the valid request answered as before."
 )
 ASSUMPTIONS = [
     "teneye: T x^(m-1) = x for unit x is checked with |got - x| <= 1e-12 (the rounding of ||x|| = 1 and of a sum of "
@@ -70,10 +91,23 @@ ASSUMPTIONS = [
     "simply stays as it was (assignment is C04's subject)",
     "uint8 aggregated values: a group is compared only when its exact result fits a byte (wrap-around of the accumulator is "
     "NumPy's arithmetic, not the constructor's)",
+    "float32 / int16 aggregated values are integers of magnitude <= 6 in groups of <= 4: every sum, product, max, min is exact in "
+    "the presented dtype; a mean formed in float32 is compared with 8*2^-24*sum|v|",
+    "boolean aggregated values: only reducers whose result is again a truth value or a float (count, mean, prod, sum with at most one "
+    "True per group); numpy_groupies refuses max / min of booleans (ValueError 'not inexact') - reported, not listed",
+    "ktensor.from_function is given its rank as a Python int: it asserts isinstance(num_components, int) with the message 'must be "
+    "an int' (documented refusal of numpy integers - reported, not listed)",
+    "float32 counts / fractions / densities are chosen half-way between two admissible counts (k +- 0.5), so that the product with "
+    "the size rounds the same way in single and double precision",
+    "process-wide settings compared around a call: numpy error state, print options, root logger level, logging.disable level",
 ]
 
 _SHAPE_FORMS = ["tuple", "list", "ndarray", "ndarray-col", "npint-list", "ndarray-int32", "ndarray-uint8", "npint32-tuple",
-                "npuint8-tuple"]
+                "npuint8-tuple",
+                # (round 4) further presentations of the same shape
+                "ndarray-uint64", "ndarray-uint16", "npuint64-tuple", "npint16-list", "ndarray-readonly", "ndarray-strided",
+                "ndarray-row"]
+_SHAPE_FORMS_ORDER1 = ["int", "int", "npint", "npint32", "npuint8", "ndarray-0d"]
 
 
 def _shape_arg(shape, form):
@@ -99,13 +133,37 @@ def _shape_arg(shape, form):
         return int(shape[0])
     if form == "npint":
         return np.int64(shape[0])
+    if form == "ndarray-uint64":  # e.g. what np.array(.., dtype=np.uint64) / an HDF5 attribute hands over
+        return np.array(shape, dtype=np.uint64)
+    if form == "ndarray-uint16":
+        return np.array(shape, dtype=np.uint16)
+    if form == "npuint64-tuple":
+        return tuple(np.uint64(s) for s in shape)
+    if form == "npint16-list":
+        return [np.int16(s) for s in shape]
+    if form == "ndarray-readonly":
+        a = np.array(shape, dtype=int)
+        a.setflags(write=False)
+        return a
+    if form == "ndarray-strided":  # every other entry of a longer array
+        big = np.zeros(2 * len(shape), dtype=int)
+        big[::2] = shape
+        return big[::2]
+    if form == "ndarray-row":
+        return np.array(shape, dtype=int).reshape(1, -1)
+    if form == "npint32":
+        return np.int32(shape[0])
+    if form == "npuint8":
+        return np.uint8(shape[0])
+    if form == "ndarray-0d":
+        return np.array(int(shape[0]))
     raise ValueError(form)
 
 
 @st.composite
 def _shape_and_form(draw, tier, **kw):
     shape = draw(gen.shapes(tier, **kw))
-    forms = list(_SHAPE_FORMS) + (["int", "int", "npint"] if len(shape) == 1 else [])
+    forms = list(_SHAPE_FORMS) + (_SHAPE_FORMS_ORDER1 if len(shape) == 1 else [])
     return shape, draw(st.sampled_from(forms))
 
 
@@ -224,7 +282,7 @@ def _from_function_case(draw, tier):
     shape, form = draw(_shape_and_form(tier, min_order=1))
     n = ref.prod(shape)
     data = draw(st.lists(gen.values("int"), min_size=n, max_size=n))
-    return dict(shape=shape, form=form, data=data, output=draw(st.sampled_from(["C", "F", "flat", "C-int", "strided"])))
+    return dict(shape=shape, form=form, data=data, output=draw(st.sampled_from(["C", "F", "flat", "C-int", "strided", "flat-float32", "F-int32"])))
 
 
 @cell("C20/dense/from_function", strategy=_from_function_case, quick=500, thorough=10000, shards=(1, 8))
@@ -252,6 +310,10 @@ def _dense_from_function(ctx, case):
             return np.ascontiguousarray(A.copy())
         if out == "C-int":
             return np.ascontiguousarray(A.astype(np.int64))
+        if out == "flat-float32":  # (round 4) the generated values are small integers: exact in any of these dtypes
+            return A.ravel(order="F").astype(np.float32)
+        if out == "F-int32":
+            return np.asfortranarray(A.astype(np.int32))
         big = np.zeros(tuple(2 * d for d in shape))
         sl = tuple(slice(None, None, 2) for _ in shape)
         big[sl] = A
@@ -307,7 +369,7 @@ def _diag_case(draw, tier):
         el = [abs(v) for v in el]
     elif elform == "ndarray-bool":
         el = [float(v != 0) for v in el]
-    sform = draw(st.sampled_from(_SHAPE_FORMS + (["int"] if shape and len(shape) == 1 else [])))
+    sform = draw(st.sampled_from(_SHAPE_FORMS + (_SHAPE_FORMS_ORDER1 if shape and len(shape) == 1 else [])))
     return dict(elements=el, shape=shape, elform=elform, sform=sform, vkind=vkind, scale=scale,
                 order=draw(st.sampled_from(["F", "C", None])))
 
@@ -431,8 +493,12 @@ def _enum_teneye(tier):
             for order in ("F", "C", None):
                 yield dict(ndims=m, size=n, order=order, expect="identity")
             yield dict(ndims=m, size=n, order=None, expect="identity", npargs=True)  # numpy integer scalars
+    # (round 4) order 6 with four index values and order 8: the closed-form entries are the oracle (calls: how many results)
+    yield dict(ndims=6, size=4, order=None, expect="identity", calls=2)
+    yield dict(ndims=8, size=2, order=None, expect="identity", calls=2, npargs=True)
     if tier == "thorough":
         yield dict(ndims=8, size=2, order=None, expect="identity")
+        yield dict(ndims=8, size=3, order="C", expect="identity", calls=1)
         yield dict(ndims=2, size=6, order=None, expect="identity")
         yield dict(ndims=4, size=4, order=None, expect="identity")
     for m in (1, 3, 5, 7):
@@ -470,8 +536,9 @@ def _teneye(ctx, case):
         return
     letters = "abcdefgh"[:m]
     xs = _XS.get(n) or [list(np.eye(n)[0]), list(np.ones(n) / np.sqrt(n)), list(np.arange(1, n + 1) / np.linalg.norm(np.arange(1, n + 1)))]
-    E = _identity_tensor_ref(m, n) if (n ** m <= 4096 and m <= 6) else None
-    for tag in ("", "/second-call", "/third-call"):
+    E = _identity_tensor_ref(m, n) if (n ** m <= 4096 and m <= 6 and not case.get("calls")) else None
+    E2 = _identity_tensor_closed_form(m, n) if n ** m <= 6561 else None  # (round 4) independent of the permutation count
+    for tag in ("", "/second-call", "/third-call")[:case.get("calls", 3)]:
         with ctx.sut("teneye" + tag):
             T = ttb.teneye(*margs, **kw)
         _is_F_tensor(ctx, T, (n,) * m, "teneye" + tag)
@@ -488,6 +555,8 @@ def _teneye(ctx, case):
         ctx.check(sym, "teneye-symmetric" + tag)
         if E is not None:
             ctx.check(bool(np.all(np.abs(A - E) <= 4 * ref.EPS)), "teneye-entries" + tag, ref.diff_info(A, E))
+        if E2 is not None:
+            ctx.check(bool(np.all(np.abs(A - E2) <= 4 * ref.EPS)), "teneye-entries-closed-form" + tag, ref.diff_info(A, E2))
         # the tensor's own symmetric product agrees (ttsv with skip_dim=0 is what the docstring names)
         if m >= 2:
             x = np.array(xs[-1], dtype=float)
@@ -706,7 +775,7 @@ def _huge_case(draw, tier):
     shape = draw(_huge_shape())
     api = draw(st.sampled_from(["sptenrand", "sptenrand-density", "from_function", "aggregator", "aggregator", "sptendiag"]))
     c = dict(shape=shape, api=api, np_seed=draw(st.integers(0, 2 ** 31 - 1)),
-             sform=draw(st.sampled_from(["tuple", "list", "ndarray", "npint-list"])))
+             sform=draw(st.sampled_from(["tuple", "list", "ndarray", "npint-list", "ndarray-uint64", "npuint64-tuple", "ndarray-readonly"])))
     if api in ("sptenrand", "from_function", "sptenrand-density"):
         k = draw(st.sampled_from([1, 2, 3, 7, 40, 500]))
         c["count"] = k
@@ -910,7 +979,8 @@ def _agg_case(draw, tier):
                 r[k] = top
         moved[k] = top
     hi = max([max(r) for r in rows], default=0)
-    sdt = draw(st.sampled_from(["int64", "int64", "int32"] + (["uint8"] if hi <= 255 else []) + ["uint16"]))
+    sdt = draw(st.sampled_from(["int64", "int64", "int32"] + (["uint8"] if hi <= 255 else []) + ["uint16"] +
+                               ["uint32", "uint64", "int16"] + (["int8"] if hi <= 127 else [])))  # (round 4)
     # (round 3) 1e-9 .. 1e-300: values and reduced values below every absolute tolerance are still not zero
     scale = draw(st.sampled_from([1.0, 1.0, 1.0, 1e-6, 1e6, 1e-9, 1e-12, 1e-300])) if vkind == "float" else 1.0
     reducer = draw(st.sampled_from(_REDUCERS))
@@ -918,10 +988,10 @@ def _agg_case(draw, tier):
         scale = 1e-12  # (a product of such values underflows whichever way it is associated)
     return dict(shape=shape, subs=rows, vals=[v * scale for v in vals], vkind=vkind, scale=scale,
                 give_shape=draw(st.sampled_from(["given", "given", "inferred", "larger"])) if rows else "given",
-                sform=draw(st.sampled_from(_SHAPE_FORMS)) if max(shape) <= 255 else draw(st.sampled_from(["tuple", "list", "ndarray", "ndarray-int32"])),
+                sform=draw(st.sampled_from(_SHAPE_FORMS)) if max(shape) <= 255 else draw(st.sampled_from(["tuple", "list", "ndarray", "ndarray-int32", "ndarray-uint16", "ndarray-uint64", "npuint64-tuple", "npint16-list", "ndarray-readonly", "ndarray-strided"])),
                 reducer=reducer, subs_dtype=sdt,
                 subs_layout=draw(st.sampled_from(["C", "C", "F", "strided"])),
-                vals_dtype=draw(st.sampled_from(["float", "float", "int", "int32", "uint8"])) if vkind == "int" else "float")
+                vals_dtype=draw(st.sampled_from(["float", "float", "int", "int32", "uint8", "float32", "int16"])) if vkind == "int" else "float")
 
 
 def agg_classes(case):
@@ -974,7 +1044,7 @@ def _aggregator(ctx, case):
     subs = np.array(rows, dtype=int).reshape(len(rows), N).astype(np.dtype(case.get("subs_dtype", "int64")))
     v = np.array(vals, dtype=float).reshape(len(rows), 1)
     if vdt != "float":
-        v = v.astype(dict(int=np.int64, int32=np.int32, uint8=np.uint8)[vdt])
+        v = v.astype(dict(int=np.int64, int32=np.int32, uint8=np.uint8, float32=np.float32, int16=np.int16)[vdt])
     kw = {}
     if case["give_shape"] != "inferred":
         kw["shape"] = _shape_arg(out_shape, case["sform"])
@@ -1005,6 +1075,8 @@ def _aggregator(ctx, case):
         if got is not None:
             if case["vkind"] == "int" and red not in ("np.mean", "mean"):
                 ok = ref.same_exact(got, E)
+            elif vdt == "float32":  # (round 4) a mean formed in single precision: single-precision bound
+                ok = bool(np.all(np.abs(np.asarray(got, dtype=float) - E) <= 8 * 2.0 ** -24 * B))
             else:
                 nterms = max(mults) if mults else 1
                 ok = ref.same_bound(got, E, B, nterms)
@@ -1087,6 +1159,725 @@ def _ktensor_from_function(ctx, case):
 
 
 # ==========================================================================
+# round 4: how the caller presents a valid request (class 11), reporting environment (13), rejected requests (12, 14),
+# orders 5..8
+# ==========================================================================
+
+
+@contextlib.contextmanager
+def _loglevel(name):
+    """root logger at the given level with a NullHandler (core.evaluate disables logging: re-enabled and restored here)"""
+    if name in (None, "ERROR"):
+        yield
+        return
+    root = logging.getLogger()
+    old, old_disable = root.level, root.manager.disable
+    h = logging.NullHandler()
+    kept = list(root.handlers)  # (a stream handler configured elsewhere would print every record: only the NullHandler listens)
+    root.handlers[:] = [h]
+    root.setLevel(getattr(logging, name))
+    logging.disable(logging.NOTSET)
+    try:
+        yield
+    finally:
+        logging.disable(old_disable)
+        root.setLevel(old)
+        root.handlers[:] = kept
+
+
+def _env():
+    """process-wide settings a generator has no business changing"""
+    root = logging.getLogger()
+    return dict(errstate=dict(np.geterr()), loglevel=root.level, log_disabled=root.manager.disable,
+                printoptions=repr(sorted(np.get_printoptions().items(), key=str)))
+
+
+_NUM = {"python": lambda v: v, "np.float64": np.float64, "np.float32": np.float32, "np.int64": lambda v: np.int64(int(v)),
+        "np.int32": lambda v: np.int32(int(v)), "np.uint8": lambda v: np.uint8(int(v)), "np.int16": lambda v: np.int16(int(v)),
+        "np.uint64": lambda v: np.uint64(int(v))}
+
+
+def _dfact(k):
+    r = 1
+    while k > 1:
+        r *= k
+        k -= 2
+    return r
+
+
+def _identity_tensor_closed_form(m, n):
+    """E[idx] = prod_v (c_v - 1)!! / (m - 1)!!  when every index value v occurs an even number c_v of times, else 0
+    (the number of perfect matchings of the positions into equal pairs over the number of all perfect matchings)"""
+    E = np.zeros((n,) * m)
+    for idx in itertools.product(range(n), repeat=m):
+        num = 1
+        for v in set(idx):
+            c = idx.count(v)
+            if c % 2:
+                num = 0
+                break
+            num *= _dfact(c - 1)
+        E[idx] = num / _dfact(m - 1)
+    return E
+
+
+def _same_dense(a, b):
+    return (isinstance(a, ttb.tensor) and isinstance(b, ttb.tensor) and tup(a.shape) == tup(b.shape) and a.data.dtype == b.data.dtype
+            and a.data.shape == b.data.shape and ref.same_exact(a.data, b.data)
+            and a.data.flags["F_CONTIGUOUS"] == b.data.flags["F_CONTIGUOUS"])
+
+
+def _same_sparse(a, b, dtype=True):
+    if not (isinstance(a, ttb.sptensor) and isinstance(b, ttb.sptensor) and tup(a.shape) == tup(b.shape)):
+        return False
+    if a.subs.size == 0 or b.subs.size == 0:
+        return a.subs.size == b.subs.size and a.vals.size == b.vals.size
+    return (a.subs.shape == b.subs.shape and np.array_equal(a.subs, b.subs) and a.vals.shape == b.vals.shape
+            and (a.vals.dtype == b.vals.dtype or not dtype) and np.array_equal(a.vals, b.vals))
+
+
+_P_APIS = ["tenones", "tenzeros", "tenrand", "tensor.from_function", "tendiag", "sptendiag", "teneye", "sptenrand-count",
+           "sptenrand-density", "sptensor.from_function", "aggregator", "aggregator", "ktensor.from_function"]
+_INTTYPES = ["python", "np.int64", "np.int32", "np.uint8", "np.int16", "np.uint64"]
+_ELFORMS = ["list", "tuple", "ndarray", "col", "row", "readonly", "strided", "ndarray-float32", "ndarray-int64", "ndarray-int32",
+            "ndarray-uint8", "ndarray-int8", "ndarray-bool", "list-int", "list-npfloat32"]
+# name, the numpy callable, the builtin: the same reducer
+_RED_PRESENT = {"sum": [None, "sum", np.sum, sum, np.add.reduce, "nansum"], "max": ["max", np.max, max, np.amax, "amax"],
+                "min": ["min", np.min, min, np.amin, "amin"], "prod": ["prod", np.prod, "nanprod"], "mean": ["mean", np.mean],
+                "count": ["len", len, lambda g: len(g)]}
+
+
+def _el_present(el, form):
+    a = np.array(el, dtype=float)
+    if form in ("list", "tuple", "ndarray", "col", "list-int") or form.startswith("ndarray-"):
+        return _el_arg(el, form)
+    if form == "row":
+        return a.reshape(1, -1)
+    if form == "readonly":
+        a.setflags(write=False)
+        return a
+    if form == "strided":
+        big = np.zeros(2 * len(el))
+        big[::2] = a
+        return big[::2]
+    if form == "list-npfloat32":
+        return [np.float32(v) for v in el]
+    if form.startswith("scalar"):
+        return {"scalar": float, "scalar-int": int, "scalar-np.int64": np.int64, "scalar-np.float32": np.float32,
+                "scalar-0d": np.array}[form](el[0])
+    raise ValueError(form)
+
+
+@st.composite
+def _pres_case(draw, tier):
+    api = draw(st.sampled_from(_P_APIS))
+    c = dict(api=api, np_seed=draw(st.integers(0, 2 ** 31 - 1)), loglevel=draw(st.sampled_from(["ERROR", "DEBUG", "DEBUG", "INFO"])),
+             style=draw(st.sampled_from(["positional", "keyword", "mixed"])), order=draw(st.sampled_from(["F", "C", None])))
+    if api == "teneye":
+        m = draw(st.sampled_from([2, 2, 4, 4, 6]))
+        c.update(ndims=m, size=draw(st.integers(1, 4 if m <= 4 else 2)), ntype=draw(st.sampled_from(_INTTYPES)),
+                 stype=draw(st.sampled_from(_INTTYPES)))
+        return c
+    shape, form = draw(_shape_and_form(tier, min_order=1, max_cells=48))
+    c.update(shape=shape, form=form)
+    size = ref.prod(shape)
+    if api in ("tendiag", "sptendiag"):
+        k = draw(st.integers(1, 5))
+        c.update(elements=draw(st.lists(st.integers(0, 6).map(float), min_size=k, max_size=k)), elform=draw(st.sampled_from(_ELFORMS)),
+                 give_shape=draw(st.sampled_from(["given", "given", "default" if k <= 4 else "given"])))
+        if k == 1 and draw(st.booleans()):  # a single element handed over as a scalar
+            c["elform"] = draw(st.sampled_from(["scalar", "scalar-int", "scalar-np.int64", "scalar-np.float32", "scalar-0d"]))
+        if c["elform"] == "ndarray-bool":
+            c["elements"] = [float(v != 0) for v in c["elements"]]
+    elif api in ("sptenrand-count", "sptenrand-density", "sptensor.from_function"):
+        if size < 2:
+            shape[0] = draw(st.integers(2, 5))
+            size = ref.prod(shape)
+        k = draw(st.integers(1, size - 1))
+        if api == "sptenrand-density":
+            c.update(kind="density", value=(k - 0.5) / size, numtype=draw(st.sampled_from(["python", "np.float64", "np.float32"])))
+        else:
+            c["fun_dtype"] = draw(st.sampled_from(["float64", "float32", "int64", "readonly"]))
+            kind = draw(st.sampled_from(["count", "count", "count-float", "fraction"])) if api == "sptensor.from_function" else \
+                draw(st.sampled_from(["count", "count", "count-float"]))
+            value = k if kind == "count" else (k + 0.5 if kind == "count-float" and k + 0.5 < size else
+                                               (float(k) if kind == "count-float" else (k - 0.5) / size))
+            nts = {"count": ["python", "np.int64", "np.int32", "np.uint8", "np.int16", "np.uint64", "np.float64", "np.float32"],
+                   "count-float": ["python", "np.float64", "np.float32"], "fraction": ["python", "np.float64", "np.float32"]}[kind]
+            c.update(kind=kind, value=value, numtype=draw(st.sampled_from(nts)))
+    elif api == "aggregator":
+        subsF = [list(s_) for s_ in ref.all_subs_F(shape)]
+        nd = min(draw(st.integers(1, 5)), len(subsF))
+        picks = draw(st.lists(st.sampled_from(subsF), min_size=nd, max_size=nd, unique_by=tuple))
+        rows, vals = [], []
+        for s_ in picks:
+            mult = draw(st.sampled_from([1, 1, 2, 3]))
+            vs = draw(st.lists(st.integers(-6, 6).map(float), min_size=mult, max_size=mult))
+            if mult >= 2 and draw(st.integers(0, 3)) == 0:
+                vs = vs[:-1] + [-sum(vs[:-1])]
+            rows += [list(s_)] * mult
+            vals += vs
+        p_ = draw(st.permutations(range(len(rows))))
+        vdt = draw(st.sampled_from(["float64", "float32", "int64", "int32", "int16", "bool"]))
+        # (boolean values: numpy_groupies refuses max / min of booleans; a boolean sum holds at most one True)
+        red = draw(st.sampled_from(sorted(_RED_PRESENT) if vdt != "bool" else ["count", "mean", "prod", "prod", "sum"]))
+        c.update(subs=[rows[i] for i in p_], vals=[vals[i] for i in p_], reducer=red,
+                 red_form=draw(st.integers(0, len(_RED_PRESENT[red]) - 1)), vals_dtype=vdt,
+                 subs_dtype=draw(st.sampled_from(["int64", "int32", "uint8", "int8", "uint16", "int16", "uint32", "uint64"])),
+                 subs_flags=draw(st.sampled_from(["plain", "readonly", "F", "strided"])),
+                 vals_flags=draw(st.sampled_from(["plain", "readonly", "strided"])),
+                 give_shape=draw(st.sampled_from(["given", "inferred", "inferred-None"])))
+    elif api == "ktensor.from_function":
+        c["rank"] = draw(st.integers(1, 3))
+    return c
+
+
+@cell("C20/presentations", strategy=_pres_case, quick=250, thorough=2500, shards=(2, 8))
+def presentations(ctx, case):
+    """the same request in two presentations gives the same answer: the canonical call (tuple of Python ints, float64
+    arrays, Python numbers, options by keyword, quiet logger) against the drawn presentation (shape form, numpy scalars,
+    dtypes, read-only / strided arrays, reducer as name / NumPy callable / builtin, arguments positionally / all by
+    keyword, root logger at DEBUG), under the same seed; the canonical answer is judged by the property's clauses"""
+    api, style = case["api"], case["style"]
+    ctx.label("api-" + api, "style-" + style, "log-" + case["loglevel"])
+    env0 = _env()
+    okw = {} if case["order"] is None else dict(order=case["order"])
+
+    def both(canon, alt, what):
+        np.random.seed(case["np_seed"])
+        with ctx.sut(what + "/canonical"):
+            A = canon()
+        np.random.seed(case["np_seed"])
+        with _loglevel(case["loglevel"]):
+            with ctx.sut(what + "/presented"):
+                B = alt()
+        return A, B
+
+    if api == "teneye":
+        m, n = case["ndims"], case["size"]
+        ctx.label(f"ndims{m}", "ndims-" + case["ntype"], "size-" + case["stype"])
+        ctx.nt = n >= 2
+        pm, pn = _NUM[case["ntype"]](m), _NUM[case["stype"]](n)
+        A, B = both(lambda: ttb.teneye(m, n, **okw),
+                    lambda: ttb.teneye(ndims=pm, size=pn, **okw) if style == "keyword" else
+                    (ttb.teneye(pm, pn, case["order"] or "F") if style == "positional" else ttb.teneye(pm, pn, **okw)), "teneye")
+        _is_F_tensor(ctx, A, (n,) * m, "teneye")
+        ctx.check(bool(np.all(np.abs(A.data - _identity_tensor_closed_form(m, n)) <= 4 * ref.EPS)), "teneye-entries")
+        ctx.check(_same_dense(A, B), "teneye-same-request-presented-differently")
+    elif api in ("tenones", "tenzeros", "tenrand", "tensor.from_function"):
+        shape = tuple(case["shape"])
+        ctx.label(*gen.shape_classes(shape), "form-" + case["form"])
+        ctx.nt = len(set(shape)) >= 2
+        sarg = lambda: _shape_arg(shape, case["form"])  # noqa: E731
+        if api == "tensor.from_function":
+            fun = lambda s_: np.arange(ref.prod(s_), dtype=float) - 2.0  # noqa: E731  (flat: first index fastest)
+            A, B = both(lambda: ttb.tensor.from_function(fun, shape),
+                        lambda: ttb.tensor.from_function(function_handle=fun, shape=sarg()) if style == "keyword"
+                        else ttb.tensor.from_function(fun, sarg()), api)
+            _is_F_tensor(ctx, A, shape, "from_function")
+            ctx.check(ref.same_exact(A.data, (np.arange(ref.prod(shape), dtype=float) - 2.0).reshape(shape, order="F")),
+                      "from_function-entries-are-function-output")
+        else:
+            f = getattr(ttb, api)
+            A, B = both(lambda: f(shape, **okw),
+                        lambda: f(shape=sarg(), **okw) if style == "keyword" else
+                        (f(sarg(), case["order"] or "F") if style == "positional" else f(sarg(), **okw)), api)
+            _is_F_tensor(ctx, A, shape, api)
+            if api != "tenrand":
+                ctx.check(bool(np.all(A.data == (1.0 if api == "tenones" else 0.0))), api + "-entries")
+            else:
+                ctx.check(bool(np.all((A.data >= 0) & (A.data < 1))), "tenrand-in-unit-interval")
+        ctx.check(_same_dense(A, B), api + "-same-request-presented-differently",
+                  (tup(getattr(B, "shape", ())), str(getattr(getattr(B, "data", None), "dtype", None))))
+    elif api in ("tendiag", "sptendiag"):
+        el = case["elements"]
+        shape = tuple(case["shape"]) if case["give_shape"] == "given" else None
+        E = _diag_expect(el, shape)
+        ctx.label("elements-" + case["elform"], "shape-" + case["give_shape"], "form-" + case["form"], f"order{E.ndim}")
+        ctx.nt = shape is not None and len(set(shape)) >= 2 and len(el) >= 2
+        f = getattr(ttb, api)
+        earg = lambda: _el_present(el, case["elform"])  # noqa: E731
+        kw = dict(okw) if api == "tendiag" else {}
+        if shape is None:
+            canon = lambda: f(np.array(el, dtype=float), **kw)  # noqa: E731
+            alt = (lambda: f(elements=earg(), **kw)) if style == "keyword" else (lambda: f(earg(), **kw))
+        else:
+            canon = lambda: f(np.array(el, dtype=float), shape, **kw)  # noqa: E731
+            sarg = lambda: _shape_arg(shape, case["form"])  # noqa: E731
+            if style == "keyword":
+                alt = lambda: f(elements=earg(), shape=sarg(), **kw)  # noqa: E731
+            elif style == "positional" and api == "tendiag":
+                alt = lambda: f(earg(), sarg(), case["order"] or "F")  # noqa: E731
+            else:
+                alt = lambda: f(earg(), sarg(), **kw)  # noqa: E731
+        held = earg()
+        A, B = both(canon, alt, api)
+        if api == "tendiag":
+            _is_F_tensor(ctx, A, E.shape, "tendiag")
+            ctx.check(ref.same_exact(A.data, E), "tendiag-values-on-superdiagonal-zero-elsewhere")
+            ctx.require(isinstance(B, ttb.tensor), "tendiag-returns-tensor/presented")
+            ctx.check(tup(B.shape) == E.shape and ref.same_exact(B.data, E) and B.data.flags["F_CONTIGUOUS"],
+                      "tendiag-same-request-presented-differently", (B.shape, ref.diff_info(B.data, E) if B.data.shape == E.shape else None))
+        else:
+            ctx.require(isinstance(A, ttb.sptensor) and isinstance(B, ttb.sptensor), "sptendiag-returns-sptensor")
+            for T_, tag in ((A, ""), (B, "/presented")):
+                probs = ref.sptensor_problems(T_)
+                ctx.require(not probs, "sptendiag-wellformed" + tag, probs)
+            ctx.check(tup(A.shape) == E.shape and ref.same_exact(ref.den(A), E), "sptendiag-values-on-superdiagonal-zero-elsewhere")
+            ctx.check(_same_sparse(A, B, dtype=False), "sptendiag-same-request-presented-differently", (B.shape, B.subs.tolist()[:4]))
+        ctx.check(_same_args([held], [earg()]), api + "-leaves-elements")
+    elif api in ("sptenrand-count", "sptenrand-density", "sptensor.from_function"):
+        shape = tuple(case["shape"])
+        size = ref.prod(shape)
+        kind, nt_ = case["kind"], case["numtype"]
+        num = _NUM[nt_](case["value"])
+        want = _requested(size, kind, float(num))
+        ctx.label(*gen.shape_classes(shape), "form-" + case["form"], "kind-" + kind, "number-" + nt_)
+        ctx.nt = len(set(shape)) >= 2 and max(want) >= 2
+        ntag = "/" + _sptenrand_number_class(case)
+        sarg = lambda: _shape_arg(shape, case["form"])  # noqa: E731
+        if api == "sptensor.from_function":
+            fun = lambda s_: (np.arange(ref.prod(s_), dtype=float) + 2.0).reshape(s_)  # noqa: E731
+            fdt = case.get("fun_dtype", "float64")
+            ctx.label("function-returns-" + fdt)
+
+            def fun2(s_):  # the same values as the function hands them over: single precision, integers, a read-only array
+                a = fun(s_).astype(np.dtype(fdt)) if fdt != "readonly" else fun(s_)
+                if fdt == "readonly":
+                    a.setflags(write=False)
+                return a
+
+            A, B = both(lambda: ttb.sptensor.from_function(fun, shape, float(num) if kind != "count" else int(num)),
+                        lambda: ttb.sptensor.from_function(function_handle=fun2, shape=sarg(), nonzeros=num) if style == "keyword"
+                        else ttb.sptensor.from_function(fun2, sarg(), num), "sptensor.from_function")
+            what = "from_function"
+            if isinstance(A, ttb.sptensor):
+                ctx.check(np.array_equal(np.asarray(A.vals, dtype=float).reshape(-1), np.arange(A.nnz, dtype=float) + 2.0),
+                          "from_function-values-are-function-output")
+        elif kind == "density":
+            A, B = both(lambda: ttb.sptenrand(shape, density=float(num)),
+                        lambda: ttb.sptenrand(shape=sarg(), density=num) if style == "keyword" else
+                        (ttb.sptenrand(sarg(), num) if style == "positional" else ttb.sptenrand(sarg(), density=num)),
+                        "sptenrand" + ntag)
+            what = "sptenrand"
+        else:
+            A, B = both(lambda: ttb.sptenrand(shape, nonzeros=float(num) if kind != "count" else int(num)),
+                        lambda: ttb.sptenrand(shape=sarg(), nonzeros=num) if style == "keyword" else
+                        (ttb.sptenrand(sarg(), None, num) if style == "positional" else ttb.sptenrand(sarg(), nonzeros=num)),
+                        "sptenrand" + ntag)
+            what = "sptenrand"
+        _check_random_sparse(ctx, A, shape, want, what, request_class(dict(shape=shape, kind=kind, value=float(num))))
+        ctx.check(_same_sparse(A, B, dtype=api != "sptensor.from_function" or case.get("fun_dtype", "float64") in ("float64", "readonly")),
+                  what + "-same-request-presented-differently", (tup(getattr(B, "shape", ())), getattr(B, "nnz", None)))
+    elif api == "aggregator":
+        shape = tuple(case["shape"])
+        N = len(shape)
+        rows, vals, red = case["subs"], list(case["vals"]), case["reducer"]
+        vdt = case["vals_dtype"]
+        if vdt == "bool":
+            vals = [float(v != 0) for v in vals]
+        groups = {}
+        for s_, v in zip(rows, vals):
+            groups.setdefault(tuple(s_), []).append(v)
+        expect = {s_: (_reduce(red, g) if red != "count" else float(len(g))) for s_, g in groups.items()}
+        expect = {s_: v for s_, v in expect.items() if v != 0}
+        given = case["give_shape"] == "given"
+        out_shape = shape if given else tuple(max(r[k] for r in rows) + 1 for k in range(N))
+        rf = _RED_PRESENT[red][case["red_form"]]
+        ctx.label(*gen.shape_classes(shape), "reducer-" + red, "reducer-as-" + (rf if isinstance(rf, str) else ("default" if rf is None else
+                  ("builtin" if rf in (sum, max, min, len) else "callable"))), "vals-" + vdt, "subs-" + case["subs_dtype"],
+                  "subs-" + case["subs_flags"], "vals-" + case["vals_flags"], "shape-" + case["give_shape"], "form-" + case["form"],
+                  "has-repeat" if len(groups) < len(rows) else "all-distinct",
+                  "some-group-reduces-to-zero" if len(expect) < len(groups) else "no-zero-group")
+        ctx.nt = len(groups) < len(rows) and len(groups) >= 2
+        # what the presented dtype can hold exactly (narrow accumulators are NumPy's arithmetic, means are formed in the dtype)
+        if vdt == "bool" and (red in ("max", "min") or (red == "sum" and any(sum(g) > 1 for g in groups.values()))):
+            ctx.skip("boolean-values-with-a-reducer-whose-result-is-not-boolean")
+        exact_alt = not (red == "mean" and vdt == "float32")
+        subs0 = np.array(rows, dtype=np.int64).reshape(len(rows), N)
+        v0 = np.array(vals, dtype=float).reshape(-1, 1)
+
+        def present():
+            s_ = subs0.astype(np.dtype(case["subs_dtype"]))
+            if case["subs_flags"] == "F":
+                s_ = np.asfortranarray(s_)
+            elif case["subs_flags"] == "strided":
+                big = np.zeros((2 * len(rows), N), dtype=s_.dtype)
+                big[::2] = s_
+                s_ = big[::2]
+            elif case["subs_flags"] == "readonly":
+                s_.setflags(write=False)
+            v_ = v0.astype(np.dtype(vdt))
+            if case["vals_flags"] == "strided":
+                big = np.zeros((len(rows), 3), dtype=v_.dtype)
+                big[:, 1:2] = v_
+                v_ = big[:, 1:2]
+            elif case["vals_flags"] == "readonly":
+                v_.setflags(write=False)
+            return s_, v_
+
+        cred = {"sum": "sum", "max": "max", "min": "min", "prod": "prod", "mean": "mean", "count": (lambda g: float(len(g)))}[red]
+        a_s, a_v = present()
+
+        def alt():
+            kw = {} if rf is None else dict(function_handle=rf)
+            if given:
+                kw = dict(shape=_shape_arg(shape, case["form"]), **kw)
+            elif case["give_shape"] == "inferred-None":
+                kw = dict(shape=None, **kw)
+            if style == "keyword":
+                return ttb.sptensor.from_aggregator(subs=a_s, vals=a_v, **kw)
+            if style == "positional" and ("shape" in kw or "function_handle" not in kw):
+                return ttb.sptensor.from_aggregator(a_s, a_v, *[kw[k_] for k_ in ("shape", "function_handle") if k_ in kw])
+            return ttb.sptensor.from_aggregator(a_s, a_v, **kw)
+
+        A, B = both(lambda: ttb.sptensor.from_aggregator(subs0.copy(), v0.copy(), out_shape, function_handle=cred), alt,
+                    "sptensor.from_aggregator")
+        for T_, tag in ((A, ""), (B, "/presented")):
+            ctx.require(isinstance(T_, ttb.sptensor), "aggregator-returns-sptensor" + tag, type(T_).__name__)
+            probs = ref.sptensor_problems(T_)
+            ctx.require(not probs, "aggregator-wellformed-zeros-dropped" + tag, probs)
+            ctx.check(tup(T_.shape) == out_shape, "aggregator-shape" + tag, f"{T_.shape} vs {out_shape}")
+        ctx.check(_sp_dict(A) == expect, "aggregator-reduces-duplicates", f"{_sp_dict(A)} vs {expect}")
+        got = _sp_dict(B)
+        if exact_alt:
+            ctx.check(got == expect, "aggregator-same-request-presented-differently", f"{got} vs {expect}")
+        else:
+            ctx.check(got is not None and set(got) == set(expect) and all(abs(got[k_] - expect[k_]) <= 8 * 2.0 ** -24 * 6 for k_ in expect),
+                      "aggregator-same-request-presented-differently/single-precision", f"{got} vs {expect}")
+        f_s, f_v = present()
+        ctx.check(np.array_equal(a_s, f_s) and a_s.dtype == f_s.dtype and np.array_equal(a_v, f_v) and a_v.dtype == f_v.dtype
+                  and a_s.shape == f_s.shape and a_v.shape == f_v.shape, "aggregator-leaves-arguments")
+    else:
+        shape, r = tuple(case["shape"]), case["rank"]
+        ctx.label(*gen.shape_classes(shape), "form-" + case["form"])
+        ctx.nt = len(set(shape)) >= 2
+        fun = lambda s_: (np.arange(ref.prod(s_), dtype=float) + 1.0).reshape(s_)  # noqa: E731
+        sarg = lambda: _shape_arg(shape, case["form"])  # noqa: E731
+        A, B = both(lambda: ttb.ktensor.from_function(fun, shape, r),
+                    lambda: ttb.ktensor.from_function(function_handle=fun, shape=sarg(), num_components=r) if style == "keyword"
+                    else ttb.ktensor.from_function(fun, sarg(), r), "ktensor.from_function")
+        ctx.require(isinstance(A, ttb.ktensor) and isinstance(B, ttb.ktensor), "kfrom_function-returns-ktensor")
+        ctx.check(tup(A.shape) == shape and all(ref.same_exact(f_, fun((n_, r))) for f_, n_ in zip(A.factor_matrices, shape))
+                  and bool(np.all(np.asarray(A.weights) == 1.0)), "kfrom_function-factors-are-function-output")
+        ctx.check(tup(B.shape) == shape and len(B.factor_matrices) == len(shape) and np.array_equal(A.weights, B.weights)
+                  and all(ref.same_exact(x, y) for x, y in zip(A.factor_matrices, B.factor_matrices)),
+                  "kfrom_function-same-request-presented-differently")
+    ctx.check(_env() == env0, "generator-changes-process-settings", f"{_env()} vs {env0}")
+
+
+def _sptenrand_number_class(case):
+    """pure function of the case: sptenrand given its count / density as a numpy scalar that is not a Python int / float
+    subclass (np.float64 is one)"""
+    if case.get("api") in ("sptenrand-count", "sptenrand-density") and case.get("numtype") not in ("python", "np.float64"):
+        return "number-is-numpy-scalar-not-python-subclass"
+    return "number-is-python-or-float64"
+
+
+# --------------------------------------------------------------------------
+# orders 5..8 (the shapes of the other cells stop at order 4 in the quick tier): the existing bodies on high-order requests
+# --------------------------------------------------------------------------
+
+
+@st.composite
+def _high_case(draw, tier):
+    n = draw(st.sampled_from([5, 5, 6, 6, 7, 8]))
+    cap = 600 if tier == "quick" else 3000
+    shape, cells = [], 1
+    for _ in range(n):
+        s_ = draw(st.sampled_from([1, 2, 2, 2, 3, 3, 4]))
+        if cells * s_ > cap:
+            s_ = 2 if cells * 2 <= cap else 1
+        shape.append(s_)
+        cells *= s_
+    shape = [shape[i] for i in draw(st.permutations(range(n)))]
+    api = draw(st.sampled_from(["dense", "from_function", "diag", "diag", "diag-default", "sprand", "sprand", "aggregator", "aggregator"]))
+    form = draw(st.sampled_from(_SHAPE_FORMS))
+    c = dict(api=api, loglevel=draw(st.sampled_from(["ERROR", "ERROR", "DEBUG"])))
+    seed = draw(st.integers(0, 2 ** 31 - 1))
+    order = draw(st.sampled_from(["F", "C", None]))
+    if api == "dense":
+        c["sub"] = dict(shape=shape, form=form, order=order, np_seed=seed)
+    elif api == "from_function":
+        c["sub"] = dict(shape=shape, form=form, data=draw(st.lists(gen.values("int"), min_size=cells, max_size=cells)),
+                        output=draw(st.sampled_from(["C", "F", "flat", "C-int", "strided", "flat-float32", "F-int32"])))
+    elif api in ("diag", "diag-default"):
+        k = draw(st.sampled_from([1, 2, 3, 4, 5])) if api == "diag" else draw(st.sampled_from([5, 5, 6, 6, 7]))
+        vkind = draw(st.sampled_from(["int", "float"]))
+        c["sub"] = dict(elements=draw(st.lists(gen.values(vkind), min_size=k, max_size=k)), shape=shape if api == "diag" else None,
+                        elform=draw(st.sampled_from(["list", "ndarray", "tuple", "col"])), sform=form, vkind=vkind, scale=1.0, order=order)
+    elif api == "sprand":
+        size = cells
+        if size < 2:
+            shape[0] = 3
+            size = 3
+        kind = draw(st.sampled_from(["count", "count-float", "fraction", "density"]))
+        k = draw(st.one_of(st.integers(1, size - 1), st.just(size - 1), st.integers(max(1, size // 2), size - 1)))
+        value = k if kind == "count" else (k + 0.25 if kind == "count-float" and k + 0.25 < size else
+                                           (float(k) if kind == "count-float" else (k - 0.5) / size))
+        c["sub"] = dict(shape=shape, form=form, kind=kind, value=value, np_seed=seed,
+                        api="sptenrand" if kind == "density" else draw(st.sampled_from(["sptenrand", "from_function"])), numtype="python")
+    else:
+        nd = draw(st.integers(1, 6))
+        picks = draw(st.lists(st.tuples(*[st.integers(0, d - 1) for d in shape]), min_size=nd, max_size=nd, unique=True))
+        vkind = draw(st.sampled_from(["int", "int", "float"]))
+        rows, vals = [], []
+        for s_ in picks:
+            mult = draw(st.sampled_from([1, 1, 2, 3]))
+            vs = draw(st.lists(gen.values(vkind), min_size=mult, max_size=mult))
+            if mult >= 2 and draw(st.integers(0, 2) if True else None) == 0:
+                vs = vs[:-1] + [-sum(vs[:-1])] if vkind == "int" else [vs[0], -vs[0]] + [0.0] * (mult - 2)
+            rows += [list(s_) for _ in range(mult)]
+            vals += vs
+        p_ = draw(st.permutations(range(len(rows))))
+        c["sub"] = dict(shape=shape, subs=[rows[i] for i in p_], vals=[vals[i] for i in p_], vkind=vkind, scale=1.0,
+                        give_shape=draw(st.sampled_from(["given", "inferred", "inferred"])), sform=form,
+                        reducer=draw(st.sampled_from(_REDUCERS)), subs_dtype=draw(st.sampled_from(["int64", "int32", "uint8"])),
+                        subs_layout=draw(st.sampled_from(["C", "F", "strided"])),
+                        vals_dtype=draw(st.sampled_from(["float", "int", "float32"])) if vkind == "int" else "float")
+    return c
+
+
+@cell("C20/high-order", strategy=_high_case, quick=40, thorough=400, shards=(2, 8))
+def high_order(ctx, case):
+    """every generator on requests of order 5..8 (tendiag / sptendiag without a shape: 5..7 elements), judged by the same
+    exact oracles as the low-order cells; a third of the cases with the root logger at DEBUG"""
+    api, sub = case["api"], case["sub"]
+    ctx.label("api-" + api, "log-" + case["loglevel"])
+    with _loglevel(case["loglevel"]):
+        if api == "dense":
+            _dense_generators(ctx, sub)
+        elif api == "from_function":
+            _dense_from_function(ctx, sub)
+        elif api in ("diag", "diag-default"):
+            _diagonals(ctx, sub)
+        elif api == "sprand":
+            _sparse_random(ctx, sub)
+        else:
+            _aggregator(ctx, sub)
+
+
+# --------------------------------------------------------------------------
+# rejected requests (classes 12 and 14): nothing is left behind, and the next valid request is answered as before
+# --------------------------------------------------------------------------
+
+_REJECTS = {
+    "aggregator": ["one-value-many-subs", "one-sub-many-values", "one-1x1-sub-many-values", "vals-flat", "vals-row", "vals-two-columns",
+                   "vals-3d", "sub-outside-shape", "sub-outside-shape-zero-value", "subs-wider-than-shape", "subs-narrower-than-shape",
+                   "subs-narrower-than-shape-all-extents-1", "negative-sub", "shape-has-zero-mode", "shape-not-integer",
+                   "unknown-reducer-name", "one-value-fewer", "one-value-more", "reducer-in-shape-position",
+                   "shape-in-reducer-position", "shape-empty"],
+    "sptenrand": ["density-and-count", "neither", "density-zero", "density-negative", "density-above-one", "count-is-size",
+                  "count-above-size", "count-negative", "count-in-density-position", "shape-not-integer"],
+    "sptensor.from_function": ["count-is-size", "count-above-size", "count-negative", "function-not-callable"],
+    "tensor.from_function": ["function-returns-one-more", "function-returns-one-fewer", "function-returns-two-for-all-extents-1",
+                             "shape-not-integer", "negative-mode"],
+    "tendiag": ["elements-matrix", "shape-not-integer", "order-not-F-or-C"],
+    "sptendiag": ["elements-matrix", "shape-not-integer"],
+    "teneye": ["odd-order", "odd-order-numpy-int", "order-not-F-or-C"],
+    "tenones": ["shape-not-integer", "negative-mode", "order-not-F-or-C"],
+}
+
+
+@st.composite
+def _reject_case(draw, tier):
+    api = draw(st.sampled_from(sorted(_REJECTS) + ["aggregator", "aggregator"]))
+    shape = draw(gen.shapes(tier, min_order=1, max_cells=36))
+    if ref.prod(shape) < 3 and api in ("sptenrand", "sptensor.from_function"):
+        shape[0] = draw(st.integers(3, 5))
+    c = dict(api=api, shape=shape, reject=draw(st.sampled_from(_REJECTS[api])), np_seed=draw(st.integers(0, 2 ** 31 - 1)),
+             nrej=draw(st.sampled_from([1, 1, 2])))
+    n = draw(st.integers(2, 5))
+    subsF = [list(s_) for s_ in ref.all_subs_F(shape)]
+    c["subs"] = [draw(st.sampled_from(subsF)) for _ in range(n)]
+    c["vals"] = draw(st.lists(gen.values("int", nonzero=True), min_size=n, max_size=n))
+    c["reducer"] = draw(st.sampled_from(["default", "sum", "max", "min", "np.max", "mean", "callable-count"]))
+    c["elements"] = draw(st.lists(gen.values("int"), min_size=2, max_size=4))
+    c["count"] = draw(st.integers(1, max(1, ref.prod(shape) - 1)))
+    c["ndims"] = draw(st.sampled_from([1, 3, 5]))
+    c["size"] = draw(st.integers(1, 3))
+    return c
+
+
+@cell("C20/rejected", strategy=_reject_case, quick=150, thorough=1500, shards=(2, 8))
+def rejected(ctx, case):
+    """history: valid request - ill-formed request(s) of the same generator - the same valid request.  The ill-formed request
+    must be answered with an exception; the arrays the caller handed over are bit for bit what they were (values, dtype, shape,
+    flags), process-wide settings are unchanged, and the valid request after it is answered exactly as before it.  The
+    ill-formed part is generated together with extents of 1 / equal lengths elsewhere, so that broadcasting cannot hide it."""
+    api, rej = case["api"], case["reject"]
+    shape = tuple(case["shape"])
+    N, size = len(shape), ref.prod(shape)
+    ctx.label("api-" + api, api + "/" + rej, f"rejected-{case['nrej']}x")
+    ctx.nt = True
+    rows, vals = case["subs"], case["vals"]
+    n = len(rows)
+    subs = np.array(rows, dtype=np.int64).reshape(n, N)
+    v = np.array(vals, dtype=float).reshape(n, 1)
+    el = np.array(case["elements"], dtype=float)
+    fkw = {} if case["reducer"] == "default" else dict(function_handle=_reducer_arg(case["reducer"]))
+    fun_sp = lambda s_: (np.arange(ref.prod(s_), dtype=float) + 1.5).reshape(s_)  # noqa: E731
+    ones1 = (1,) * N
+
+    def valid():
+        np.random.seed(case["np_seed"])
+        if api == "aggregator":
+            return ttb.sptensor.from_aggregator(subs.copy(), v.copy(), shape, **fkw)
+        if api == "sptenrand":
+            return ttb.sptenrand(shape, nonzeros=min(case["count"], size - 1))
+        if api == "sptensor.from_function":
+            return ttb.sptensor.from_function(fun_sp, shape, min(case["count"], size - 1))
+        if api == "tensor.from_function":
+            return ttb.tensor.from_function(lambda s_: np.arange(ref.prod(s_), dtype=float), shape)
+        if api == "tendiag":
+            return ttb.tendiag(el.copy(), shape)
+        if api == "sptendiag":
+            return ttb.sptendiag(el.copy(), shape)
+        if api == "teneye":
+            return ttb.teneye(2 if case["ndims"] < 5 else 4, case["size"])
+        return ttb.tenones(shape)
+
+    held = {}  # the mutable arguments of the ill-formed request
+
+    def ill():
+        a_s, a_v, a_e = subs.copy(), v.copy(), el.copy()
+        fshape = np.array(shape, dtype=float)
+        held.clear()
+        held.update(subs=a_s, vals=a_v, elements=a_e, fshape=fshape)
+        if api == "aggregator":
+            f = ttb.sptensor.from_aggregator
+            if rej == "one-value-many-subs":  # (n, N) subscripts, one value: broadcasts
+                return lambda: f(a_s, a_v[:1], shape, **fkw)
+            if rej == "one-sub-many-values":
+                return lambda: f(a_s[:1], a_v, shape, **fkw)
+            if rej == "one-1x1-sub-many-values":  # a single subscript of a 1-way tensor: subs.size == 1
+                return lambda: f(np.zeros((1, 1), dtype=np.int64), a_v, (shape[0],), **fkw)
+            if rej == "vals-flat":
+                held["vals"] = a_v = a_v.reshape(-1)
+                return lambda: f(a_s, a_v, shape, **fkw)
+            if rej == "vals-row":
+                held["vals"] = a_v = np.ascontiguousarray(a_v.reshape(1, -1))
+                return lambda: f(a_s, a_v, shape, **fkw)
+            if rej == "vals-two-columns":
+                held["vals"] = a_v = np.ascontiguousarray(np.hstack([a_v, a_v]))
+                return lambda: f(a_s, a_v, shape, **fkw)
+            if rej == "vals-3d":
+                held["vals"] = a_v = a_v.reshape(-1, 1, 1).copy()
+                return lambda: f(a_s, a_v, shape, **fkw)
+            if rej in ("sub-outside-shape", "sub-outside-shape-zero-value"):
+                k = case["np_seed"] % N
+                a_s[case["np_seed"] % n, k] = shape[k]
+                if rej.endswith("zero-value"):  # the ill-formed part has no visible effect on the values
+                    a_v[case["np_seed"] % n, 0] = 0.0
+                return lambda: f(a_s, a_v, shape, **fkw)
+            if rej == "subs-wider-than-shape":  # the extra column addresses extent-1 modes only
+                held["subs"] = a_s = np.hstack([a_s, np.zeros((n, 1), dtype=np.int64)])
+                return lambda: f(a_s, a_v, shape, **fkw)
+            if rej == "subs-narrower-than-shape":
+                return lambda: f(a_s, a_v, shape + (1,), **fkw)
+            if rej == "subs-narrower-than-shape-all-extents-1":
+                held["subs"] = a_s = np.zeros((n, N), dtype=np.int64)
+                return lambda: f(a_s, a_v, ones1 + (1,), **fkw)
+            if rej == "negative-sub":
+                a_s[case["np_seed"] % n, case["np_seed"] % N] = -1
+                return lambda: f(a_s, a_v, shape, **fkw)
+            if rej == "shape-has-zero-mode":
+                k = case["np_seed"] % N
+                return lambda: f(a_s, a_v, shape[:k] + (0,) + shape[k + 1:], **fkw)
+            if rej == "shape-not-integer":
+                return lambda: f(a_s, a_v, fshape, **fkw)
+            if rej == "unknown-reducer-name":
+                return lambda: f(a_s, a_v, shape, "summ")
+            if rej == "one-value-fewer":
+                return lambda: f(a_s, a_v[:-1], shape, **fkw)
+            if rej == "reducer-in-shape-position":  # a value that is valid for the neighbouring argument
+                return lambda: f(a_s, a_v, "max")
+            if rej == "shape-in-reducer-position":
+                return lambda: f(a_s, a_v, None, shape)
+            if rej == "shape-empty":
+                return lambda: f(a_s, a_v, (), **fkw)
+            return lambda: f(a_s, np.vstack([a_v, a_v[:1]]), shape, **fkw)
+        if api == "sptenrand":
+            f = ttb.sptenrand
+            return {"density-and-count": lambda: f(shape, density=0.5, nonzeros=1), "neither": lambda: f(shape),
+                    "density-zero": lambda: f(shape, density=0.0), "density-negative": lambda: f(shape, density=-0.25),
+                    "density-above-one": lambda: f(shape, density=1.5), "count-is-size": lambda: f(shape, nonzeros=size),
+                    "count-above-size": lambda: f(shape, nonzeros=size + 3), "count-negative": lambda: f(shape, nonzeros=-1),
+                    "count-in-density-position": lambda: f(shape, 1 + case["count"]),
+                    "shape-not-integer": lambda: f(fshape, nonzeros=1)}[rej]
+        if api == "sptensor.from_function":
+            f = ttb.sptensor.from_function
+            return {"count-is-size": lambda: f(fun_sp, shape, size), "count-above-size": lambda: f(fun_sp, shape, size + 3),
+                    "count-negative": lambda: f(fun_sp, shape, -1), "function-not-callable": lambda: f(a_v, shape, 1)}[rej]
+        if api == "tensor.from_function":
+            f = ttb.tensor.from_function
+            return {"function-returns-one-more": lambda: f(lambda s_: np.ones(ref.prod(s_) + 1), shape),
+                    "function-returns-one-fewer": lambda: f(lambda s_: np.ones(ref.prod(s_) - 1), shape),
+                    "function-returns-two-for-all-extents-1": lambda: f(lambda s_: np.ones(2), ones1),
+                    "shape-not-integer": lambda: f(np.ones, fshape),
+                    "negative-mode": lambda: f(np.ones, shape[:-1] + (-shape[-1],))}[rej]
+        if api in ("tendiag", "sptendiag"):
+            f = getattr(ttb, api)
+            if rej == "elements-matrix":
+                held["elements"] = a_e = np.arange(4, dtype=float).reshape(2, 2) + 1
+                return lambda: f(a_e, shape)
+            if rej == "shape-not-integer":
+                return lambda: f(a_e, fshape)
+            return lambda: f(a_e, shape, "K")
+        if api == "teneye":
+            return {"odd-order": lambda: ttb.teneye(case["ndims"], case["size"]),
+                    "odd-order-numpy-int": lambda: ttb.teneye(np.int64(case["ndims"]), np.int32(case["size"])),
+                    "order-not-F-or-C": lambda: ttb.teneye(2, case["size"], "K")}[rej]
+        return {"shape-not-integer": lambda: ttb.tenones(fshape), "negative-mode": lambda: ttb.tenones(shape[:-1] + (-shape[-1],)),
+                "order-not-F-or-C": lambda: ttb.tenones(shape, "K")}[rej]
+
+    def snapshot():
+        return {k_: (a.copy(), a.dtype, a.shape, a.strides, a.flags["WRITEABLE"]) for k_, a in held.items()}
+
+    def same(snap):
+        return all(held[k_].dtype == dt and held[k_].shape == sh and held[k_].strides == st_ and held[k_].flags["WRITEABLE"] == wr
+                   and np.array_equal(held[k_], a0) for k_, (a0, dt, sh, st_, wr) in snap.items())
+
+    env0 = _env()
+    with ctx.sut(api + "/valid-request"):
+        first = valid()
+    for _ in range(case["nrej"]):
+        call = ill()
+        snap = snapshot()
+        ctx.raises(api + "/" + rej + "-answered", call)
+        ctx.check(same(snap), "rejected-request-changed-its-arguments", rej)
+        ctx.check(_env() == env0, "rejected-request-changed-process-settings", f"{_env()} vs {env0}")
+    with ctx.sut(api + "/valid-request-after-rejected"):
+        again = valid()
+    if isinstance(first, ttb.sptensor):
+        probs = ref.sptensor_problems(again)
+        ctx.require(not probs, "valid-request-after-rejected-wellformed", probs)
+        ctx.check(_same_sparse(first, again), "valid-request-answered-differently-after-rejected-request")
+        if api == "aggregator":
+            groups = {}
+            for s_, x in zip(rows, vals):
+                groups.setdefault(tuple(s_), []).append(x)
+            expect = {s_: _reduce(case["reducer"], g) for s_, g in groups.items()}
+            expect = {s_: x for s_, x in expect.items() if x != 0}
+            ctx.check(tup(again.shape) == shape and _sp_dict(again) == expect, "aggregator-reduces-duplicates/after-rejected",
+                      f"{_sp_dict(again)} vs {expect}")
+        elif api == "sptendiag":
+            ctx.check(ref.same_exact(ref.den(again), _diag_expect(list(el), shape)), "sptendiag-values-on-superdiagonal-zero-elsewhere/after-rejected")
+        else:
+            ctx.check(tup(again.shape) == shape and again.nnz == min(case["count"], size - 1), "random-sparse-count/after-rejected", again.nnz)
+    else:
+        ctx.require(isinstance(again, ttb.tensor) and isinstance(first, ttb.tensor), "valid-request-after-rejected-returns-tensor")
+        ctx.check(_same_dense(first, again), "valid-request-answered-differently-after-rejected-request")
+        if api == "tendiag":
+            ctx.check(ref.same_exact(again.data, _diag_expect(list(el), shape)), "tendiag-values-on-superdiagonal-zero-elsewhere/after-rejected")
+        elif api == "tenones":
+            ctx.check(tup(again.shape) == shape and bool(np.all(again.data == 1.0)), "tenones-all-one/after-rejected")
+        elif api == "tensor.from_function":
+            ctx.check(ref.same_exact(again.data, np.arange(size, dtype=float).reshape(shape, order="F")),
+                      "from_function-entries-are-function-output/after-rejected")
+
+
+# ==========================================================================
 # predicates for known findings
 # ==========================================================================
 
@@ -1108,4 +1899,7 @@ PREDICATES = {
     "inferred_size_overflows_subs_dtype": lambda c: agg_classes(c)["inferred_size_overflows_subs_dtype"],
     # parse_shape keeps numpy-integer entries of a tuple / list shape; sizes are then multiplied in that dtype
     "uint8_tuple_shape_product_overflows": lambda c: diag_u8(c) if "elements" in c else u8_overflow(c.get("form"), c["shape"]),
+    # sptenrand tests isinstance(density, float) / isinstance(nonzeros, (int, float)): numpy integers and np.float32 fail it
+    "sptenrand_number_is_numpy_scalar_not_python_subclass":
+        lambda c: _sptenrand_number_class(c) == "number-is-numpy-scalar-not-python-subclass",
 }
